@@ -65,7 +65,7 @@ func init() {
 	}
 	stepWords := []string{"policy OrderedReady", "policy Parallel", "no rollout in progress", "set may be deleting", "pods healthy (only ordinal, revision, terminating vary)",
 		"strategy RollingUpdate with a partition", "one server error", "pods may carry a third revision", "arbitrary stored status and generation", "conflict on the status write",
-		"ordinals offset by 8", "slot values arbitrary int32", "pods may be on the server but not in the cache", "a delete may find the pod gone", "revisionHistoryLimit 0", "through the per-key sync (real listing and claiming)"}
+		"ordinals offset by 8", "slot values arbitrary int32", "pods may be on the server but not in the cache", "a delete may find the pod gone", "revisionHistoryLimit 0", "through the per-key sync (real listing and claiming)", "a pod may be an orphan waiting for adoption"}
 	stepBounds := func(a []int) string {
 		return fmt.Sprintf("one reconcile from a snapshot with <=%d pods at distinct ordinals of [0,%d] (each with symbolic phase in {Pending, Running, Succeeded, Failed, Unknown}, readiness, terminating flag and revision unless stated), replicas in [0,%d], <=%d delete slots with values in [0,%d], policy / strategy / rollingUpdate block / arbitrary non-negative int32 partition symbolic unless fixed; options: %s", a[0], a[1]+a[2], a[1], a[2], a[1]+a[2], bitWords(a[3], stepWords))
 	}
@@ -86,6 +86,7 @@ func init() {
 		oDeleteGone
 		oNoHistory
 		oViaSync
+		oOrphanPods
 	)
 	const (
 		mC03 = 1 << iota
@@ -351,10 +352,10 @@ func init() {
 				Covers:  []string{"ordinal re-created"}},
 			{Name: "identity-with-template-fields", Pkg: pkgCtl, Func: "VH_Pod", Quick: []int{1, 0, 1}, Thorough: []int{2, 0, 1},
 				Bounds: func(a []int) string {
-					return fmt.Sprintf("as 'recreate' (0..%d claim templates) with a pod template that may itself carry hostname, subdomain, name and namespace", a[0])
+					return fmt.Sprintf("as 'recreate' (0..%d claim templates) with a pod template that may itself carry hostname, subdomain, name and namespace, and a set named web-1 or db.prod", a[0])
 				},
 				Asserts: []string{"hostname is the pod name", "subdomain is the governing service", "pod name is <set>-<ordinal>", "pod lives in the set's namespace"},
-				Covers:  []string{"template carries hostname, subdomain, name and namespace"}},
+				Covers:  []string{"template carries hostname, subdomain, name and namespace", "set name with a dot"}},
 		},
 		Stubs:        ctlStubs,
 		Assumptions:  []string{"set name, namespace, service and claim-template names are fixed constants (a name with '-' and a digit); the claim client fake implements only Create, so any update/delete of a claim is a crash of the harness", "ApplyRevision model as in C03"},
@@ -376,6 +377,11 @@ func init() {
 					return "as above with a third set whose selector is invalid in the same namespace"
 				},
 				Asserts: []string{"exactly the sets the event concerns are enqueued"}},
+			{Name: "events-negative-selector", Pkg: pkgCtl, Func: "VH_Events", Quick: []int{2}, Thorough: []int{2},
+				Bounds: func(a []int) string {
+					return "as 'events' with a third set whose selector is a NotIn expression (it matches every pod that lacks the key)"
+				},
+				Asserts: []string{"exactly the sets the event concerns are enqueued"}, Covers: []string{"a set with a NotIn selector lives in the namespace"}},
 			{Name: "worker", Pkg: pkgCtl, Func: "VH_Worker", Quick: []int{0}, Thorough: []int{0},
 				Bounds: func(a []int) string {
 					return "one processNextWorkItem over sync with up to one failing API call (six error kinds) at any call position; set present, paused or gone"
@@ -411,7 +417,7 @@ func init() {
 				},
 				Asserts: []string{"the built-in set is deleted with orphan propagation", "an Advanced StatefulSet exists before the built-in one is removed", "same spec", "same status",
 					"every revision of the set carries the upgrade marker", "selector labels are removed from every revision of the set", "the built-in set is gone exactly when the helper reported success"},
-				Covers: []string{"built-in delete issued", "upgrade completed", "crash injected", "advanced object pre-exists", "set scaled to zero"}},
+				Covers: []string{"built-in delete issued", "upgrade completed", "crash injected", "advanced object pre-exists", "set scaled to zero", "pre-existing object differs in more than replicas"}},
 			{Name: "upgrade-expression-selector", Pkg: pkgHelper, Func: "VH_Upgrade", Quick: []int{1, 0, 4}, Thorough: []int{2, 1, 4},
 				Bounds:  func(a []int) string { return "as above including a selector made of matchExpressions only" },
 				Asserts: []string{"selector labels are removed from every revision of the set"}},
@@ -504,6 +510,9 @@ func init() {
 			{Name: "failure", Pkg: pkgCtl, Func: "VH_Fault", Quick: []int{1, 1, 1, oLeanPods | oThreeRevs, 3, 0}, Thorough: []int{1, 1, 1, oThreeRevs, 6, 0}, Bounds: faultBounds,
 				Asserts: []string{"a failed API call makes the reconcile report failure", "after the failure a fixed point is reached", "every delete has a reason", "created ordinal is desired", "no pod outside the desired set remains"},
 				Covers:  []string{"a call failed", "recovered from a failure", "fault injected at pod.create", "fault injected at pod.delete", "fault injected at set.updateStatus", "fault injected at rev.list", "fault injected at pvc.create"}, MaxSteps: 40_000_000},
+			{Name: "failure-with-orphan-pods", Pkg: pkgCtl, Func: "VH_Fault", Quick: []int{1, 1, 0, oLeanPods | oOrphanPods, 3, 0}, Thorough: []int{1, 1, 1, oLeanPods | oOrphanPods, 3, 0}, Bounds: faultBounds,
+				Asserts: []string{"a failed API call makes the reconcile report failure", "after the failure a fixed point is reached"},
+				Covers:  []string{"an orphan pod waits for adoption", "fault injected at set.get", "fault injected at pod.patch"}, MaxSteps: 40_000_000},
 			{Name: "two-failures", Pkg: pkgCtl, Func: "VH_Fault", Quick: []int{0, 1, 0, oLeanPods, 2, 0, 2}, Thorough: []int{1, 1, 1, oLeanPods | oThreeRevs, 2, 0, 2},
 				Bounds: func(a []int) string {
 					return fmt.Sprintf("as 'failure' with up to two failing calls in the same reconcile (server error or conflict), <=%d pods, replicas in [0,%d], <=%d slots", a[0], a[1], a[2])
